@@ -48,4 +48,45 @@ theorem C14_asShipped_witness_native :
 theorem C14_sound_witness : detect .sound Perm.id [] cexHeap (.ref 0) = true ∧
     buildParamToNative .sound Perm.id cexHeap (.ref 0) = .error .cycle := by decide
 
+/-- **What the shipped detector does guarantee** (`_partial`: the statement restricted to cycles along the first-element
+chain): if following element 0 of arrays/structs (and the only entry of one-entry maps) from object `r` leads back to
+`r`, the detector answers "circular" under every iteration order and `Serialize` / `BuildParamToNative` return the error.
+Missing w.r.t. `CycleRejected`: cycles that use an element at a position > 0 or an entry of a map with ≥ 2 entries
+(`C14_asShipped_counterexample`). -/
+theorem C14_cycle_rejected_asShipped_partial (perm : Perm) (hv : perm.valid) (h : Heap) (r : Ref)
+    (hc : FirstCycle h r) :
+    (∀ path, detect .asShipped perm path h (.ref r) = true) ∧
+    serialize .asShipped perm h (.ref r) = .error .cycle ∧
+    buildParamToNative .asShipped perm h (.ref r) = .error .cycle := by
+  have hd : ∀ path, detect .asShipped perm path h (.ref r) = true := fun path =>
+    detShipped_of_neverEnds perm hv path h _ r [] (neverEnds_of_firstCycle hc)
+  refine ⟨hd, ?_, ?_⟩
+  · simp [serialize, serFuel, MAX_BYTEARRAY_SIZE, ser, hd]
+  · simp [buildParamToNative, natv, hd]
+
+/-- non-vacuity: `a = [a, 1]` and the one-entry map `m = {k: [m]}` have first-element cycles -/
+example : FirstCycle [.arr [.ref 0, .int 1]] 0 := ⟨1, by decide, by decide⟩
+example : FirstCycle [.map [⟨[1], .int 1, .ref 1⟩], .arr [.ref 0]] 0 := ⟨2, by decide, by decide⟩
+
+/-- **Decoding is total**: for every byte string (shorter than 2^64) `Deserialize` either returns a value together with a
+cursor inside the buffer, or one of the error kinds eof / irregular / depth / itemsize / bigint / arraysize / badtype.
+The model's `panic` (a Go slice expression out of range in `ZeroCopySource`) and `fuel` (recursion deeper than
+`MAX_COUNT + 2`) outcomes are unreachable. -/
+theorem C14_decode_total (bs : Bytes) (hlen : bs.length < two64) :
+    (∃ t s', deserialize bs = .ok (t, s') ∧ s'.bs = bs ∧ s'.off ≤ bs.length) ∨
+    (∃ e, deserialize bs = .error e ∧ e ≠ .panic ∧ e ≠ .fuel) := by
+  have h := deserialize_good bs hlen
+  cases hr : deserialize bs with
+  | error e => rw [hr] at h; exact .inr ⟨e, rfl, h⟩
+  | ok p =>
+    obtain ⟨t, s'⟩ := p
+    rw [hr] at h
+    obtain ⟨h1, _, h3⟩ := h
+    exact .inl ⟨t, s', rfl, h1, by rw [h1] at h3; exact h3⟩
+
+example : deserialize [0x80, 0x02, 0x01, 0x01, 0x02, 0x01, 0xff] =
+    .ok (.arr [.bool true, .int (-1)], ⟨[0x80, 0x02, 0x01, 0x01, 0x02, 0x01, 0xff], 7⟩) := by rfl
+example : deserialize [0x80, 0x02, 0x01, 0x02] = .error .irregular := by rfl
+example : deserialize [0x82, 0x01, 0x80, 0x00, 0x01, 0x01] = .error .badtype := by rfl
+
 end OntVerif.Props.C14
